@@ -34,6 +34,7 @@ let () =
   let table = load_table Sys.argv.(1) in
   let g = { rfc20 = Sys.argv.(2) = "1"; f5322 = Sys.argv.(3) = "1"; uscore = Sys.argv.(4) = "1" } in
   let extra = Sys.argv.(5) = "1" in
+  let kitmode = Array.length Sys.argv > 6 && Sys.argv.(6) = "kit" in
   let calls = ref 0 and argok = ref true in
   let mk_idn expect orc oa ob =
     (fun d -> incr calls; if Some d <> expect then argok := false;
@@ -112,12 +113,19 @@ let () =
          | _ -> out (Printf.sprintf "-1 %d\n" (int_of_z s2.e_errcode)))
       | "A" ->
         let st = ref (init_state Z0) in   (* contents irrelevant before 'i': legal histories start with it *)
+        let kit = ref kit0 in
         let toks = ref [] in
         for i = 1 to Array.length f - 1 do
           let t = f.(i) in
           let rest = String.sub t 1 (String.length t - 1) in
           let suffix s = Printf.sprintf ":%d:%d" (int_of_z s.e_errcode) (int_of_z s.e_live) in
           let idn0 = (fun _ -> IdnErr (Z0, false)) in
+          (match t.[0] with
+           | 'i' -> kit := kit_step !kit Init
+           | 'r' -> kit := kit_step !kit (SetRfc (z_of_int (int_of_string rest)))
+           | 's' -> kit := kit_step !kit Setup
+           | 'f' -> kit := kit_step !kit Free
+           | _ -> ());
           let tok = (match t.[0] with
             | 'i' -> let (s, _) = step idn0 g table !st Init in st := s; "-" ^ suffix s
             | 'r' -> let (s, _) = step idn0 g table !st (SetRfc (z_of_int (int_of_string rest))) in st := s; "-" ^ suffix s
@@ -148,7 +156,9 @@ let () =
             | _ -> "BADOP") in
           toks := tok :: !toks
         done;
-        out (String.concat " " (List.rev !toks)); out "\n"
+        out (String.concat " " (List.rev !toks));
+        if kitmode then out (Printf.sprintf " K%d,%d,%d,0" (int_of_z !kit.k_created) (int_of_z !kit.k_destroyed) (int_of_z !kit.k_bad));
+        out "\n"
       | _ -> out "BADKIND\n");
       if Buffer.length buf > 60000 then (print_string (Buffer.contents buf); Buffer.clear buf)
     end
